@@ -166,6 +166,16 @@ def run_case(case):
                 compare(b, X, np.broadcast_to(scale, shape) * X + np.broadcast_to(loc, shape), "scale*x+loc with the constructor's loc/scale")
             u = unwrap(b)
             compare(b, X, np.asarray(u.scale) * X + np.asarray(u.loc), f"scale*x+loc (level {lvl})")
+        # "with the parameters the constructor was given", across magnitudes (the scale is stored through an inverse softplus)
+        rel_tol = 1e-11 if bt.np_dtype() == np.float64 else 2e-5
+        for mag in (1e-6, 1e-5, 1e-4, 1e3, 1e6):
+            want_s = np.asarray(mag * (1.0 + 0.25 * np.arange(3)), bt.np_dtype())
+            for nm_, mk_, get_ in (("Affine", lambda v: B.Affine(jnp.zeros(3, v.dtype), jnp.asarray(v)), lambda u: u.scale), ("Scale", lambda v: B.Scale(jnp.asarray(v)), lambda u: u.scale),
+                                   ("TriangularAffine diagonal", lambda v: B.TriangularAffine(jnp.zeros(3, v.dtype), jnp.asarray(np.diag(v))), lambda u: jnp.diag(u.triangular))):
+                got_s = np.asarray(get_(unwrap(mk_(want_s))), float)
+                rel = float(np.max(np.abs(got_s - want_s.astype(float)) / want_s.astype(float)))
+                if not rel <= rel_tol:
+                    add("constructor-scale-magnitude", f"{nm_} built with scale {want_s.tolist()} uses {got_s.tolist()} (relative error {rel:.2e})")
         neg = eqx.tree_at(lambda a: a.scale, b0, jnp.asarray(-np.broadcast_to(scale, shape)))
         X = bt.input_batch(np.full(shape, "R"), [], np.float64, max_points=60)
         compare(neg, X, -np.broadcast_to(scale, shape) * X + np.broadcast_to(loc, shape), "replaced negative scale")
